@@ -304,6 +304,10 @@ func Main(cfg *Config) {
 		st, viols, infra := exploreScenario(cfg, sc, *nworkers, dl)
 		if infra != "" {
 			fmt.Fprintf(os.Stderr, "INFRA: %s scenario %s: %s\n", cfg.Property, sc.Name, infra)
+			if rep.Failed() {
+				// a violation has been reported already: the run fails as a violation
+				os.Exit(1)
+			}
 			os.Exit(2)
 		}
 		for _, v := range viols {
